@@ -108,6 +108,16 @@ def cases(tier, seed):
         for cfg in configs(tier):
             if cfg["types"] == "declared":
                 out.append({"input": {"text": text, "config": cfg, "goals": goals}, "N": 4})
+    for text in base:
+        # transform_categoricals on every program with at least two probabilistic choices (generated draw variables `_cK` next
+        # to one another and next to aliases of user variables), not only on the slice
+        if text in sliced or text.count("{") < 3:
+            continue
+        goals = gen.goals_for(text, 2, 3)
+        for cfg in configs(tier):
+            if cfg["settings"].get("transform_categoricals") and cfg["types"] != "declared" and not cfg["force_cyclic"] \
+                    and len([k for k, v in cfg["settings"].items() if v]) == 1:
+                out.append({"input": {"text": text, "config": cfg, "goals": goals}, "N": 4})
     for text in progs:
         goals = gen.goals_for(text, 2, 3 if tier == "quick" else 5)
         for ci, cfg in enumerate(configs(tier)):
